@@ -198,4 +198,104 @@ theorem requiredOK_of_B (fsT stT : Table) (dreq : Caps) (e : String) (hf : KeysN
   · exact Or.inl ⟨x, fromName_ok_registered _ _ _ hx⟩
   · exact Or.inr ⟨x, fromName_ok_registered _ _ _ hx⟩
 
+/-! ### `…FromNames` computes the set union of the single resolutions, nothing twice -/
+
+def InTable (t : Table) (p : Plugin) : Prop := ∃ kv ∈ t, p ∈ kv.2
+
+theorem addAll_spec (t : Table) (hdet : NameDetermines t) (ms : List Plugin) (res : List Plugin)
+    (hnd : (res.map (·.name)).Nodup) (hres : ∀ p ∈ res, InTable t p) (hms : ∀ p ∈ ms, InTable t p) :
+    ((addAll res ms).map (·.name)).Nodup ∧ (∀ p ∈ addAll res ms, InTable t p) ∧
+    ∀ p, p ∈ addAll res ms ↔ p ∈ res ∨ p ∈ ms := by
+  induction ms generalizing res with
+  | nil => exact ⟨by simpa [addAll] using hnd, by simpa [addAll] using hres, fun p => by simp [addAll]⟩
+  | cons e es ih =>
+    have he : InTable t e := hms e (by simp)
+    have hes : ∀ p ∈ es, InTable t p := fun p hp => hms p (by simp [hp])
+    unfold addAll
+    by_cases hany : res.any (fun r => r.name == e.name) = true
+    · simp only [hany, if_true]
+      obtain ⟨r, hr, hname⟩ := List.any_eq_true.1 hany
+      have hre : r = e := by
+        obtain ⟨kv, hkv, hp⟩ := hres r hr
+        obtain ⟨kw, hkw, hq⟩ := he
+        exact hdet kv hkv kw hkw r hp e hq (by simpa using hname)
+      obtain ⟨i1, i2, i3⟩ := ih res hnd hres hes
+      refine ⟨i1, i2, fun p => ?_⟩
+      rw [i3 p]
+      constructor
+      · rintro (h | h)
+        · exact Or.inl h
+        · exact Or.inr (by simp [h])
+      · rintro (h | h)
+        · exact Or.inl h
+        · simp only [List.mem_cons] at h
+          rcases h with rfl | h
+          · exact Or.inl (hre ▸ hr)
+          · exact Or.inr h
+    · simp only [hany, Bool.false_eq_true, if_false]
+      have hno : e.name ∉ res.map (·.name) := by
+        intro hm
+        obtain ⟨r, hr, hn⟩ := List.mem_map.1 hm
+        exact hany (List.any_eq_true.2 ⟨r, hr, by simpa using hn⟩)
+      have hnd' : ((res ++ [e]).map (·.name)).Nodup := by
+        rw [List.map_append, List.nodup_append]
+        refine ⟨hnd, by simp, ?_⟩
+        intro a ha b hb
+        simp only [List.map_cons, List.map_nil, List.mem_singleton] at hb
+        rw [hb]; intro hab; exact hno (hab ▸ ha)
+      have hres' : ∀ p ∈ res ++ [e], InTable t p := by
+        intro p hp
+        simp only [List.mem_append, List.mem_singleton] at hp
+        rcases hp with hp | rfl
+        · exact hres p hp
+        · exact he
+      obtain ⟨i1, i2, i3⟩ := ih (res ++ [e]) hnd' hres' hes
+      refine ⟨i1, i2, fun p => ?_⟩
+      rw [i3 p]
+      simp only [List.mem_append, List.mem_cons, List.not_mem_nil, or_false]
+      constructor
+      · rintro ((h | h) | h)
+        · exact Or.inl h
+        · exact Or.inr (Or.inl h)
+        · exact Or.inr (Or.inr h)
+      · rintro (h | h | h)
+        · exact Or.inl (Or.inl h)
+        · exact Or.inl (Or.inr h)
+        · exact Or.inr h
+
+theorem fromNamesLoop_spec (t : Table) (hk : KeysNodup t) (hdet : NameDetermines t) (names : List String) (res r : List Plugin)
+    (hnd : (res.map (·.name)).Nodup) (hres : ∀ p ∈ res, InTable t p) (h : fromNamesLoop t names res = .ok r) :
+    (r.map (·.name)).Nodup ∧ ∀ p, p ∈ r ↔ p ∈ res ∨ ∃ n ∈ names, ListedUnder t n p := by
+  induction names generalizing res with
+  | nil =>
+    simp only [fromNamesLoop] at h
+    cases h
+    exact ⟨hnd, fun p => by simp⟩
+  | cons n ns ih =>
+    unfold fromNamesLoop at h
+    cases hl : t.lookup n with
+    | none => rw [hl] at h; cases h
+    | some ms =>
+      rw [hl] at h
+      have hmem : (n, ms) ∈ t := lookup_mem t n ms hl
+      have hms : ∀ p ∈ ms, InTable t p := fun p hp => ⟨(n, ms), hmem, hp⟩
+      obtain ⟨a1, a2, a3⟩ := addAll_spec t hdet ms res hnd hres hms
+      obtain ⟨i1, i2⟩ := ih (addAll res ms) a1 a2 h
+      refine ⟨i1, fun p => ?_⟩
+      rw [i2 p, a3 p]
+      constructor
+      · rintro ((h | h) | ⟨m, hm, hl'⟩)
+        · exact Or.inl h
+        · exact Or.inr ⟨n, by simp, ms, hmem, h⟩
+        · exact Or.inr ⟨m, by simp [hm], hl'⟩
+      · rintro (h | ⟨m, hm, ms', hmem', hp⟩)
+        · exact Or.inl (Or.inl h)
+        · simp only [List.mem_cons] at hm
+          rcases hm with rfl | hm
+          · have : ms' = ms := by
+              have := mem_lookup t m ms' hk hmem'
+              rw [hl] at this; cases this; rfl
+            exact Or.inl (Or.inr (this ▸ hp))
+          · exact Or.inr ⟨m, hm, ms', hmem', hp⟩
+
 end Scalibr.Registry
